@@ -185,6 +185,7 @@ def run(ctx):
                         esc = type(x).__name__
                     rows.append((version, "msg", frame2, v2, list(rec), esc))
                     owns.append(OWN)
+            prev_tc = None
             for k in range(81 + ctx.n(40, 300)):
                 v = dict(nwk=rng.getrandbits(16), ieee=[rng.getrandbits(8) for _ in range(8)], status=rng.choice([0, 1, 2, 3, 4, rng.randrange(256)]),
                          decision=rng.choice([0, 1, 2, 3, rng.randrange(256)]), parent=rng.getrandbits(16))
@@ -192,6 +193,12 @@ def run(ctx):
                     # the whole grid of small status x decision values first (named members and the unnamed ones next
                     # to them: a decision byte outside the named ones is not a denial)
                     v["status"], v["decision"] = k // 9, k % 9
+                elif prev_tc is not None and rng.random() < 0.3:
+                    # history: the device of the previous callback again, right away (paired and removed at once, a rejoin followed by a
+                    # real departure, two joins in a row): every callback is judged by itself
+                    v["nwk"], v["ieee"] = prev_tc["nwk"], list(prev_tc["ieee"])
+                    v["status"] = rng.choice([2, 2, 0, 1, 3])
+                prev_tc = v
                 if rng.random() < 0.4:
                     # vendors whose joins make the application override the manufacturer code for a while
                     # (IEEE prefixes 54:EF:44 / 04:CF:8C; the frame carries the address low byte first); joins of
